@@ -1,6 +1,6 @@
 """C04 — quoted expansions arrive byte-exact (DESIGN §3 C04): the quoting tag is assigned,
 preserved and honoured on every path, and expansion results never flow into a parser."""
-from rulelib import (SHIPPED, arm_regions, call_sites, cfg_of, defs_of, enum_switches, owner, switches_on_field)
+from rulelib import (SHIPPED, arm_regions, call_sites, cfg_of, defs_of, enum_switches, owner, resolve_bool_arm, short, switches_on_field)
 from dataflow import base_local, field_stores, flow_back, origins, const_value
 from facts import canon
 
@@ -265,6 +265,86 @@ def run(prog, chk):
                 chk.fail("R4.5", fn, "reparse:" + key,
                          "%s passes text derived from %s to %s at %s: the *content* of an expansion is parsed as shell syntax again" % (fn, hit, bc, b.loc(t.line)))
     chk.floor("R4.5", "parser sink call sites in brush_core::expansion", nsinks, 8)
+    glob_activity_rule(prog, chk)
+
+
+GLOB_DETECTOR = "brush_parser::pattern::pattern_has_glob_metacharacters"
+PATTERN_PIECE = "brush_core::patterns::PatternPiece"
+
+
+def glob_activity_rule(prog, chk):
+    """R4.6: the question "does this word contain an active glob" is asked of unquoted text only.
+    Every call of the glob-metacharacter detector (or of a wrapper that forwards its &str parameter to it) in the
+    shipped crates receives either (a) a forwarded text parameter (the body becomes a wrapper and its callers are
+    checked), or (b) PatternPiece::as_str of a piece on the `Pattern` arm of a discriminant test (matches!/match) —
+    i.e. a piece that came from an unquoted expansion. Text assembled from whole piece lists (Literal pieces
+    included) makes the content of a quoted expansion count as glob syntax: nullglob then deletes the argument and
+    failglob aborts the command."""
+    chk.rule("R4.6", "glob activity (pattern_has_glob_metacharacters and its wrappers) is decided from PatternPiece::Pattern text only: every "
+                     "detector call gets a forwarded parameter or as_str() of a piece on the Pattern arm of a discriminant test")
+    detectors = {GLOB_DETECTOR}
+    checked = set()
+    nsites = 0
+    changed = True
+    while changed:
+        changed = False
+        for b, bb, t in prog.callers_of(*detectors, crates=SHIPPED):
+            key = (b.name, bb)
+            if key in checked or not t.args:
+                continue
+            checked.add(key)
+            nsites += 1
+            fn = owner(b.name)
+            d = defs_of(b)
+            flows = flow_back(b, d, t.args[0], all_args=True)
+            vias = set()
+            for f in flows:
+                vias |= set(f.via)
+            terms = [f for f in flows if f.kind in ('arg', 'unknown', 'const')]
+            # (a) wrapper: the text is a parameter of the body itself and nothing piece-shaped is involved
+            arg_tys = {canon(b.local_ty(f.node)) for f in terms if f.kind == 'arg'}
+            piece_involved = any("PatternPiece" in v for v in vias) or any("PatternPiece" in ty or "PatternWord" in ty for ty in arg_tys)
+            if terms and all(f.kind == 'arg' for f in terms) and not piece_involved and all(ty in ("&str", "&alloc::string::String", "alloc::string::String") for ty in arg_tys) \
+                    and b.kind not in ("closure", "coroutine"):
+                if b.name not in detectors:
+                    detectors.add(b.name)
+                    changed = True
+                chk.ok("R4.6", "wrapper:" + fn, "forwards its text parameter to the detector; callers are checked instead", nontrivial=False, function=fn)
+                continue
+            # (b) guarded piece
+            if not any(v.endswith("PatternPiece::as_str") for v in vias):
+                chk.fail("R4.6", fn, "glob-test-on-unclassified-text:" + short(t.best_callee() or ""),
+                         "%s asks whether text is an active glob at %s, but the text is not PatternPiece::as_str() of a single piece (it flows from %s): "
+                         "characters that came from a quoted expansion are counted as glob syntax"
+                         % (fn, b.loc(t.line), sorted(short(v) for v in vias)[:6] or sorted(arg_tys)))
+                continue
+            c = cfg_of(b)
+            guarded = False
+            for sbb, m, other, rest, place in enum_switches(prog, b, PATTERN_PIECE):
+                if "Pattern" not in m and "Pattern" not in rest:
+                    continue
+                tg = dict(m)
+                for r in rest:
+                    tg[r] = other
+                res = {n: resolve_bool_arm(b, x) for n, x in tg.items()}
+                if not c.dominates(sbb, bb):
+                    continue
+                on_pat = bb in c.reachable_from(res["Pattern"], avoid=[sbb])
+                on_other = any(bb in c.reachable_from(x, avoid=[sbb]) for n, x in res.items() if n != "Pattern" and x != res["Pattern"])
+                if on_pat and not on_other:
+                    guarded = True
+            # every piece-shaped input must be the one as_str receiver: nothing collected from a list of pieces
+            collected = [v for v in vias if v.endswith(("Iterator::collect", "::concat", "::join", "String::push_str", "FromIterator>::from_iter"))]
+            if guarded and not collected:
+                chk.ok("R4.6", "pattern-arm-only@%s" % fn, "detector called only on the Pattern arm of the piece's discriminant test", function=fn)
+            elif collected:
+                chk.fail("R4.6", fn, "glob-test-on-concatenated-pieces", "%s tests text concatenated from several pieces (%s) at %s: quoted pieces take part in the glob decision"
+                         % (fn, short(collected[0]), b.loc(t.line)))
+            else:
+                chk.fail("R4.6", fn, "glob-test-on-literal-piece",
+                         "%s calls the glob detector on PatternPiece::as_str() at %s without restricting the piece to PatternPiece::Pattern: a quoted "
+                         "(Literal) piece's characters decide whether the word is a glob" % (fn, b.loc(t.line)))
+    chk.floor("R4.6", "glob-detector call sites (wrappers included)", nsites, 2)
 
 
 def _closure_calls(prog, cb, callee):
